@@ -1,9 +1,25 @@
-import sys; sys.path.insert(0,'/verif')
-import pyvc.state as S, traceback
-orig=S.State.bump
-def b(self,what):
-    print('BUMP',what); traceback.print_stack(limit=6)
-    return orig(self,what)
-S.State.bump=b
-sys.argv=['x','contracts.names','Typename.to_cpp']
-exec(open('/verif/scratch/t5.py').read().split('res=discharge')[0])
+import sys; sys.path.insert(0,"/verif")
+from pyvc.extract import Repo
+from pyvc.vc import Engine
+from pyvc.run import discharge
+from pyvc import api
+from contracts.schema import SCHEMA
+import importlib
+mods=sys.argv[1].split(',')
+for m in mods: importlib.import_module(m)
+repo=Repo()
+e=Engine(repo,SCHEMA,api.CONTRACTS,api.SPECS,{})
+frs=[]
+for k in sys.argv[2:]:
+    if k=='-v': continue
+    fr=e.verify_function(k); frs.append(fr)
+    print(k,'paths',len(fr.paths),'unsupported:',fr.unsupported)
+    if fr.unsupported_trace and '-v' in sys.argv: print(fr.unsupported_trace[-1500:])
+res=discharge(frs)
+bad=0
+for r in res:
+    if r.verdict!='unsat':
+        bad+=1
+        print(r.verdict,r.solver,'%.2f'%r.time,r.func,r.path_idx,r.ob.kind,r.ob.lineno,r.ob.note[:140])
+        open('/tmp/fail%d_%s.smt2'%(bad,r.verdict),'w').write(r.text)
+print('obligations',len(res),'not discharged',bad,'max time %.2f'%max([r.time for r in res] or [0]))
